@@ -95,9 +95,14 @@ package rtpac3
 // --- decoder (C08) -------------------------------------------------------------------------
 // The partial frame is one packet's worth of bytes plus, at most, what the frame header
 // announced as still missing (an AC-3 frame has at most 3840 bytes).
+//@ ufun sumlen(s [][]byte, n int) int = ite(n <= 0, 0, sumlen(s, n-1) + len(s[n-1]))
+//@   lemma[n; t [][]byte] (forall k :: 0 <= k && k < n ==> len(s[k]) == len(t[k])) ==> sumlen(s, n) == sumlen(t, n)
+//@   trigger sumlen(s, n)
+//@   trigger sumlen(t, n)
 //@ typeinv Decoder d
 //@   inv[C08] 0 <= d.fragmentsSize && d.fragmentsSize <= 65535 + 3840
 //@   inv[C08] d.fragmentsSize > 0 && d.fragmentsExpected >= 0 ==> d.fragmentsSize + d.fragmentsExpected <= 65535 + 3840
+//@   inv[C08] d.fragmentsSize == sumlen(d.fragments, len(d.fragments))
 
 //@ func joinFragments
 //@   opt safety-tag=C08
